@@ -377,7 +377,7 @@ func ruleGetGlobal(c *Check, rule string) {
 // R6 CANCELLABLE-LOOPS.
 var goroutineBodies = []string{
 	fnSyncLoop, "syncer/receiver.(*Receiver).Run", fnDlRun, "syncer/cleaner.(*Worker).Run",
-	"syncer/sweeper.(*Sweeper).Run", fnSweep, "syncer.(*Syncer).startStatsLogger$1", fnSendOnce,
+	"syncer/sweeper.(*Sweeper).Run", fnSweep, "syncer.(*Syncer).startStatsLogger$go", fnSendOnce,
 }
 
 // ctxArg: does the call receive the goroutine's context?
